@@ -251,6 +251,8 @@ mut("R-C08-merged-keyword-index-fen-moves-at-6", "C08", "fen-moves-from-8", (UC,
 mut("R-C01-direction-table-southeast-is-southwest", "C01", "unit-steps", ("src/board/square.rs", "    Delta::new(-1, 1),  // SouthEast", "    Delta::new(-1, -1),  // SouthEast"), base=R + "R15-refactor5.diff")
 mut("R-C03-by-value-rights-not-written-back", "C03", "revocation", (B, "        new_move.castling_rights = rights;\n", ""), base=R + "R16-refactor3.diff")
 mut("R-C02-by-value-checks-return-touches-clock", "C02", "pushes-the-played-move", (B, "        new_move.castling_rights = rights;\n", "        new_move.castling_rights = rights;\n        new_move.halfmove_clock = 0;\n"), base=R + "R16-refactor3.diff")
+mut("R-C15-merged-name-end-allows-equal", "C15", "index", (UC, "            Some(end_idx) if end_idx > name_idx => end_idx,", "            Some(end_idx) if end_idx >= name_idx => end_idx,"), base=R + "R14-refactor3.diff")
+mut("R-C15-merged-keyword-index-guard-off-by-one", "C15", "index", (UC, "        let moves = if args.len() > keyword_idx + 1 && args[keyword_idx] == \"moves\" {", "        let moves = if args.len() >= keyword_idx && args[keyword_idx] == \"moves\" {"), base=R + "R14-refactor3.diff")
 # ---- on the fifth wave: castling moves produced by a loop over the two wings (R12-3)
 K12 = "src/board/piece/king.rs"
 mut("R-C01-castle-loop-queenside-file-b", "C01", "castle-move", (K12, "const QUEENSIDE_DEST_FILE: u8 = 2; // c-file", "const QUEENSIDE_DEST_FILE: u8 = 1; // c-file"), base=R + "R12-refactor3.diff")
